@@ -407,7 +407,7 @@ def subscript(I, obj, idx):
         zi, zn = to_z3_int(idx), to_z3_int(n)
         if I.path.branch(z3.Or(zi >= zn, zi < -zn)):
             raise PyRaise(IndexError("index out of range"), IndexError)
-        return norm_int(z3.Select(obj.arr, z3.If(zi < 0, zi + zn, zi)))
+        return norm_int(obj.at(z3.If(zi < 0, zi + zn, zi)))
     if isinstance(obj, SList):
         if isinstance(idx, slice):
             raise Undecided("slice of symbolic list")
